@@ -1,5 +1,5 @@
 CONSTANTS MinLg = 3  MaxSample = 1024
-          Check = {"C07", "C11", "C18"}
+          Check = {"C07", "C11", "C18", "C12"}
 SPECIFICATION TSpec
 POSTCONDITION Accepted
 CHECK_DEADLOCK FALSE
